@@ -842,6 +842,16 @@ func (x *Exec) forStmt(fr *Frame, s *ast.ForStmt, st *State) []*State {
 		}
 		st = sts[0]
 	}
+	// a counting loop `for i := ...` exposes its counter to the contracts as idx, like a range loop does
+	if as, ok := s.Init.(*ast.AssignStmt); ok && as.Tok == token.DEFINE && len(as.Lhs) == 1 {
+		if id, ok := as.Lhs[0].(*ast.Ident); ok {
+			if v, ok := fr.info.Defs[id].(*types.Var); ok {
+				if k, ok := fr.keys[v]; ok {
+					fr.scope["idx"] = k
+				}
+			}
+		}
+	}
 	x.checkInvariants(fr, st, ls, ord, "loop-entry", s.Pos())
 	x.havocTargets(fr, st, s.Body, s.Post, s.Cond)
 	x.assumeInvariants(fr, st, ls)
